@@ -79,6 +79,7 @@ def conservation(ctx, prog, name):
     n_order = [0]
     order_bad = [None]
     peek_bad = [None]
+    dup_bad = [None]
     for p in paths:
         holders = {'self.rbuf': {'B0'}}
         sources = {'B0'}
@@ -150,6 +151,9 @@ def conservation(ctx, prog, name):
                     if f.value.id in holders or f.value.id.startswith('$'):
                         holders.setdefault(f.value.id, set())
                         for a in v.args:
+                            again = (toks(a) & holders[f.value.id]) - empty
+                            if again and dup_bad[0] is None:
+                                dup_bad[0] = (o, p, again)
                             holders[f.value.id] |= toks(a)
                 elif tk and (call_name(v) in ('bytearray', 'bytes', 'list', 'memoryview') or
                              (isinstance(f, ast.Attribute) and f.attr == 'join')):
@@ -217,6 +221,11 @@ def conservation(ctx, prog, name):
         pb = peek_bad[0]
         ctx.ob('T8.peek', construct, 'peek does not consume: every byte it returns is still held by the receive buffer on return',
                pb is None, loc=fn.loc, path=pb[0].describe() if pb else None)
+    db = dup_bad[0]
+    if db is not None or name in ('recv_size', 'recv_until'):
+        ctx.ob('T10d', construct, 'no received chunk is added to the accumulated result twice (each byte exactly once)', db is None,
+               loc=loc(fn, db[0].node) if db else fn.loc, detail='appended again: %s' % sorted(db[2]) if db else '',
+               path=db[1].describe() if db else None)
     if n_order[0]:
         ob = order_bad[0]
         ctx.ob('T10o', construct, 'a concatenation stored back into the receive buffer keeps arrival order (bytes received earlier come '
